@@ -100,7 +100,9 @@ def rt_specs(draw, tier):
     b = draw(crystal_with_supercell(max_atoms=40 if tier == "quick" else 64, max_unit=6, max_det=12))
     b.update(key=draw(keys), pmat=draw(st.sampled_from(["none", "auto", "centring"])), dense_svecs=draw(st.booleans()),
              full=draw(st.booleans()), lang=draw(st.sampled_from(["C", "C", "Py"])), openmp=draw(st.booleans()),
-             via=draw(st.sampled_from(["dynmat", "dynmat", "eigen"])), fc_in=draw(st.sampled_from(["full", "compact"])))
+             via=draw(st.sampled_from(["dynmat", "dynmat", "eigen"])), fc_in=draw(st.sampled_from(["full", "compact"])),
+             # the transformer object is used once, or first for another model (possibly through the other language path)
+             before=draw(st.sampled_from(["none", "none", "C", "Py"])))
     return b
 
 
@@ -126,6 +128,20 @@ def run_roundtrip(spec):
     N = len(ph.supercell) // len(prim)
     if len(cq) != N:
         return Out(ok=False, msg="number of commensurate points %d != N %d" % (len(cq), N))
+    if spec.get("before", "none") != "none":
+        other, _ = dense_fc(ph.supercell, rng_from(spec["key"], 5), asr=True)
+        ph.force_constants = other.copy()
+        Do = []
+        for q in cq:
+            ph.dynamical_matrix.run(q)
+            Do.append(ph.dynamical_matrix.dynamical_matrix.copy())
+        d2f.dynamical_matrices = np.array(Do)
+        d2f.run(lang=spec["before"])
+        eo = relerr(d2f.force_constants, other if spec["full"] else other[prim.p2s_map])
+        if eo > 1e-9:
+            return Out(ok=False, info={"err": eo}, msg="fc -> D(commensurate q) -> fc does not return the input (first use of the object, lang %s): "
+                       "rel err %.3e" % (spec["before"], eo))
+        ph.force_constants = np.array(fc[prim.p2s_map], order="C") if spec["fc_in"] == "compact" else fc.copy()
     dm = ph.dynamical_matrix
     Ds = []
     for q in cq:
@@ -152,7 +168,7 @@ def run_roundtrip(spec):
     mm = int(multi[..., 0].max()) if multi.ndim == 3 else int(multi.max())
     nondiag = bool(np.any(S - np.diag(np.diag(S))))
     classes = ["full" if spec["full"] else "compact", "lang:" + spec["lang"], "omp" if spec["openmp"] else "noomp", spec["via"],
-               "in:" + spec["fc_in"], "mult:%d" % min(mm, 8)]
+               "in:" + spec["fc_in"], "mult:%d" % min(mm, 8), "object_used_before:" + spec.get("before", "none")]
     if e > tol:
         return Out(ok=False, classes=classes, info={"err": e},
                    msg="fc -> D(commensurate q) -> fc does not return the input: rel err %.3e (%s)" % (e, ",".join(classes)))
@@ -165,7 +181,8 @@ def ph2ph_specs(draw, tier):
     b.update(key=draw(keys), pmat=draw(st.sampled_from(["none", "auto", "centring"])),
              M=draw(st.sampled_from([[1, 1, 2], [2, 1, 1], [1, 2, 1], [2, 2, 1], [1, 1, 3], [2, 1, 2], "unrelated"])),
              S2=draw(st.lists(st.integers(-2, 2), min_size=9, max_size=9).filter(lambda v: 1 <= det3(np.array(v).reshape(3, 3)) <= 6)),
-             nac=draw(st.sampled_from(["none", "none", "wang_interp", "wang_nointerp"])), compact=draw(st.booleans()))
+             nac=draw(st.sampled_from(["none", "none", "wang_interp", "wang_nointerp"])), compact=draw(st.booleans()),
+             snf=draw(st.booleans()), dense_svecs=draw(st.booleans()))
     return b
 
 
@@ -184,7 +201,8 @@ def run_ph2ph(spec):
     if len(c["cell"]) * det3(S2) > 96:
         return Out(nontrivial=False, classes=["too_large"])
     try:
-        ph = Phonopy(c["cell"], supercell_matrix=S1, primitive_matrix=_pmat(spec["pmat"], c), log_level=0)
+        okw = dict(use_SNF_supercell=bool(spec.get("snf")), store_dense_svecs=bool(spec.get("dense_svecs", True)))
+        ph = Phonopy(c["cell"], supercell_matrix=S1, primitive_matrix=_pmat(spec["pmat"], c), log_level=0, **okw)
     except Exception as e:
         return Out(nontrivial=False, rejected=True, classes=["ctor_rejected:" + type(e).__name__])
     rng = rng_from(spec["key"])
@@ -211,7 +229,7 @@ def run_ph2ph(spec):
     ref_obj = ph
     if spec["nac"] != "none" and not with_nac:
         # interpolation ignored NAC: compare with the NAC-free original
-        ref_obj = Phonopy(c["cell"], supercell_matrix=S1, primitive_matrix=_pmat(spec["pmat"], c), log_level=0)
+        ref_obj = Phonopy(c["cell"], supercell_matrix=S1, primitive_matrix=_pmat(spec["pmat"], c), log_level=0, **okw)
         ref_obj.force_constants = ph.force_constants
     for q in cq:
         x = T2 @ q
@@ -233,7 +251,8 @@ def run_ph2ph(spec):
             ph2.force_constants.shape[0] != (len(ph2.primitive) if spec["compact"] else len(ph2.supercell)):
         return Out(ok=False, msg="ph2ph did not keep the force-constant layout")
     return Out(ok=True, nontrivial=n_assert >= 2 and det3(S2) >= 2,
-               classes=["related" if spec["M"] != "unrelated" else "unrelated", "nac:" + spec["nac"], "compact" if spec["compact"] else "full"],
+               classes=["related" if spec["M"] != "unrelated" else "unrelated", "nac:" + spec["nac"], "compact" if spec["compact"] else "full",
+                        "snf" if spec.get("snf") else "classic", "dense" if spec.get("dense_svecs", True) else "sparse"],
                info={"err": worst, "asserted_q": n_assert})
 
 
